@@ -54,18 +54,43 @@ func guard(f func() error) (err error) {
 	return f()
 }
 
+// withDebug makes newConn install a debug callback that formats its arguments (as
+// WithDebug(log.Printf) would); a case sets it from a draw and resets it when done.
+var withDebug bool
+
 // newConn calls ech.NewConn, converting panics into *panicErr.
 func newConn(ctx context.Context, tr net.Conn, keys []ech.Key) (c *ech.Conn, err error) {
 	err = guard(func() error {
 		var e error
+		var opts []ech.Option
 		if keys != nil {
-			c, e = ech.NewConn(ctx, tr, ech.WithKeys(keys))
-		} else {
-			c, e = ech.NewConn(ctx, tr)
+			opts = append(opts, ech.WithKeys(keys))
 		}
+		if withDebug {
+			opts = append(opts, ech.WithDebug(func(f string, a ...any) { _ = fmt.Sprintf(f, a...) }))
+		}
+		c, e = ech.NewConn(ctx, tr, opts...)
 		return e
 	})
 	return c, err
+}
+
+// keySnapshot / keysChanged detect writes into the key material handed to NewConn.
+func keySnapshot(keys []*hello.Key) [][]byte {
+	var out [][]byte
+	for _, k := range keys {
+		out = append(out, append([]byte{}, k.Config...))
+	}
+	return out
+}
+
+func keysChanged(keys []*hello.Key, snap [][]byte) bool {
+	for i, k := range keys {
+		if string(k.Config) != string(snap[i]) {
+			return true
+		}
+	}
+	return false
 }
 
 // readOneRecord reads exactly one TLS record from r using arbitrary buffer sizes.
